@@ -242,6 +242,13 @@ func runC18(w *World, r *Report, tier string) {
 		r.Check(bad == "" && n > 0, "R5", k, w.pos(f.Pos()), bad, fmt.Sprintf("%d success path(s), one keepalive each", n))
 	}
 
+	transportCloseRule(w, r, "R6")
+	r.Floor("R6", 2)
+}
+
+// transportCloseRule: every implementation of Transport.Close closes the underlying connection on every path on which
+// there is one (C18.R6; shared as C12.R6 — it is how a failed keepalive makes the loss visible to the receive loop).
+func transportCloseRule(w *World, r *Report, rule string) {
 	// ---- R6: Transport.Close really closes
 	var closeImpls []*ssa.Function
 	if it, ok := w.Named("xmpp.Transport").Underlying().(*types.Interface); ok {
@@ -309,10 +316,9 @@ func runC18(w *World, r *Report, tier string) {
 			}
 		})
 		if err != nil {
-			r.Undecided("R6", key, w.pos(impl.Pos()), err.Error())
+			r.Undecided(rule, key, w.pos(impl.Pos()), err.Error())
 			continue
 		}
-		r.Check(bad == "" && n > 0, "R6", key, w.pos(impl.Pos()), bad+": after a failed keepalive the socket stays open, the receive loop stays blocked in Read and the loss is never reported", fmt.Sprintf("%d path(s), each closes the connection or has none", n))
+		r.Check(bad == "" && n > 0, rule, key, w.pos(impl.Pos()), bad+": after a failed keepalive the socket stays open, the receive loop stays blocked in Read and the loss is never reported", fmt.Sprintf("%d path(s), each closes the connection or has none", n))
 	}
-	r.Floor("R6", 2)
 }
